@@ -104,7 +104,17 @@ def _case(draw):
     plan += [draw(st.lists(st.integers(0, len(variants)), min_size=1, max_size=4)) for _ in range(n_exec - 1)]
     if draw(st.booleans()) and not any(m["mp"] == "state" for m in meas):
         meas.append({"mp": "state"})
-    return {"wires": wires, "base": base, "variants": variants, "meas": meas, "plan": plan}
+    # derived tapes: tape.copy(...) of an earlier circuit *after* its hash has been computed / it has been executed
+    derived = []
+    for _ in range(draw(st.integers(0, 2))):
+        kw = draw(st.sampled_from(["shots_from_finite", "trainable", "meas", "shots_same"]))
+        d = {"copy_of": draw(st.integers(0, len(variants))), "kind": kw, "prehash": draw(st.booleans())}
+        if kw == "meas":
+            d["meas"] = draw(st.lists(gen.analytic_measurement(wires, with_state=True), min_size=1, max_size=2))
+        if kw == "trainable":
+            d["trainable"] = draw(st.lists(st.integers(0, 3), max_size=2, unique=True))
+        derived.append(d)
+    return {"wires": wires, "base": base, "variants": variants, "meas": meas, "plan": plan, "derived": derived}
 
 
 def _unwrapped(ops):
@@ -139,6 +149,37 @@ def check(spec):
     confusable = any(hashes[i] == hashes[j] and canon[i] != canon[j] for i in range(len(tapes)) for j in range(i))
     shared = {}
     n_shared_exec = 0
+    # derived copies (see _case): the source tape's hash is computed / the source is executed first, then copied
+    for d in spec.get("derived", []):
+        if d["copy_of"] >= len(tapes):
+            continue
+        src = tapes[d["copy_of"]]
+        if d["kind"] == "shots_from_finite":
+            src = src.copy(shots=37)
+            if d["prehash"]:
+                _ = src.hash
+                try:
+                    qp.execute([src], dev, cache=shared)
+                except qp.exceptions.DeviceError:
+                    pass   # state / density_matrix cannot be sampled: only the hash was pre-computed
+            new = src.copy(shots=None)
+        elif d["kind"] == "shots_same":
+            if d["prehash"]:
+                _ = src.hash
+            new = src.copy(shots=None)
+        elif d["kind"] == "meas":
+            if d["prehash"]:
+                _ = src.hash
+            new = src.copy(measurements=specs.build_tape({"ops": [], "meas": d["meas"]}).measurements)
+        else:
+            if d["prehash"]:
+                _ = src.hash
+            npar = len(src.get_parameters(trainable_only=False))
+            new = src.copy(trainable_params=[i for i in d["trainable"] if i < npar])
+        tapes.append(new)
+        circuits.append({"derived": d})
+        spec_plan_extra = len(tapes) - 1
+        spec["plan"] = list(spec["plan"]) + [[d["copy_of"], spec_plan_extra]]
     for step, idxs in enumerate(spec["plan"]):
         batch = [tapes[i] for i in idxs if i < len(tapes)]
         if not batch:
